@@ -97,7 +97,8 @@ def run(tier):
         if v["fam"] == "types":
             if v["recv"] == "bytes":        # not covered by the documentation of the type tests
                 continue
-            for val in RECV[v["recv"]]:
+            for val in RECV[v["recv"]] + ([{"$u128": str(2**128 - 1)}, {"$i128": str(-2**127)}, {"$u64": str(2**64 - 1)}] if v["recv"] == "int" else []) + \
+                       ([{"$f64": "inf"}, {"$f64": "-0.0"}] if v["recv"] == "float" else []):
                 names = sorted(v["t"].keys())
                 add(",".join("{{ x is %s }}" % n for n in names), {"x": val} if v["recv"] != "undef" else {},
                     ",".join("true" if v["t"][n] else "false" for n in names), "types", {"types": v["recv"]})
@@ -111,10 +112,14 @@ def run(tier):
                     choices.append([None])
                 elif st == "right":
                     choices.append(SPECIAL_RIGHT.get((v["name"], a["n"]), RIGHT[a["k"]]))
+                elif st == "none":
+                    choices.append(["__NONE__"])
+                elif st == "edge":
+                    choices.append([-1, {"$i128": str(2**100)}, {"$u128": str(2**128 - 1)}, {"$f64": "1e30"}, {"$i64": str(-2**63)}])
                 else:
                     choices.append(WRONG[a["k"]] or SPECIAL_RIGHT.get((v["name"], a["n"]), RIGHT[a["k"]]))   # nothing is a wrong value for an `any` argument
             import itertools
-            combos = list(itertools.product(*choices))[: (2 if tier == "quick" else 8)]
+            combos = list(itertools.product(*choices))[: (5 if "edge" in v["st"] else 2 if tier == "quick" else 8)]
             for combo in combos:
                 ctx = {"x": rv} if v["recv"] != "undef" else {}
                 kw = []
@@ -122,6 +127,7 @@ def run(tier):
                 for a, val in zip(args, combo):
                     if val is None:
                         continue
+                    val = None if val == "__NONE__" else val
                     ctx["k_" + a["n"]] = val
                     kw.append("%s=k_%s" % (a["n"], a["n"]))
                     amap[a["n"]] = val
@@ -136,6 +142,13 @@ def run(tier):
                     src = "{{ %s(%s) is defined }}" % (v["name"], ", ".join(kw))
                     src2 = None
                 add(src, ctx, ("CELL", v["cell"]), "cell", {"fam": v["fam"], "name": v["name"], "recv": v["recv"], "st": v["st"], "args": amap})
+                if v["fam"] == "filter" and v["recv"] == "str" and ri == 0 and all(s_ in ("absent", "right") for s_ in v["st"]):
+                    # the other two ways of applying a filter: on a set block and as a filter section (the receiver is the captured text)
+                    call = v["name"] + ("(" + ", ".join(kw) + ")" if kw else "")
+                    cell2 = v["cell"] if v["cell"] in ("ok", "err-missing") else "any"
+                    add("{% set y | " + call + " %}ab{% endset %}{{ y is defined }}", ctx, ("CELL", cell2), "cell", {"fam": "set-block", "name": v["name"], "recv": "str", "st": v["st"], "args": amap})
+                    add("{% filter " + call + " %}ab{% endfilter %}", ctx, ("CELL", cell2), "cell", {"fam": "filter-section", "name": v["name"], "recv": "str", "st": v["st"], "args": amap})
+                    add("{% set_global y | " + call + " | " + call + " %}ab{% endset %}{{ y is defined }}", ctx, ("CELL", "any"), "cell", {"fam": "set-block-chain", "name": v["name"], "recv": "str", "st": v["st"], "args": amap})
                 if src2 and v["recv"] != "undef" and v["cell"] in ("err-missing", "err-type"):
                     add(src2, ctx, ("KIND", v["cell"]), "cell-kind", {"fam": v["fam"], "name": v["name"], "recv": v["recv"], "st": v["st"], "args": amap})
     # ---- default, conversions against exact arithmetic
